@@ -525,8 +525,11 @@ class DatasetProcessor:
 
             # make symlink for pyfaidx index
             args.fai_file_name = self.args.reference + ".fai"
-            if not os.path.exists(args.fai_file_name) and not os.access(ref_dir, os.W_OK):
-                # index does not exist near the reference and reference folder is not writable
+            fai_missing_or_stale = not os.path.exists(args.fai_file_name) or \
+                os.path.getmtime(args.fai_file_name) < os.path.getmtime(self.args.reference)
+            if fai_missing_or_stale and not os.access(ref_dir, os.W_OK):
+                # index does not exist near the reference (or is older than the reference, so that it has to be rebuilt -
+                # under a temporary name in the same folder, see load_indexed_reference) and reference folder is not writable
                 # store index in the output folder in this case
                 args.fai_file_name = os.path.join(args.output, ref_file_name  + ".fai")
 
